@@ -62,15 +62,15 @@ type c14Scenario struct {
 	// unknown key id) is needed as well
 	Needs []string `json:"needs"`
 	// ServeNeeds: endpoints whose failure inside a request forbids serving that request
-	ServeNeeds []string `json:"serve_needs,omitempty"`
-	Discovery  bool     `json:"discovery_is_choice_point,omitempty"`
-	Profile    bool     `json:"id_token_without_email,omitempty"`
-	ProfileOpt bool     `json:"id_token_without_groups_and_preferred_username,omitempty"`
-	CustomAud  bool     `json:"custom_audience_claim,omitempty"`
-	Rotated    bool     `json:"refresh_signed_with_new_key,omitempty"`
-	BigLogin   bool     `json:"login_id_token_padded,omitempty"`
-	ExtraIssuer bool    `json:"bearer_token_of_extra_issuer,omitempty"`
-	OIDC       bool     `json:"oidc"`
+	ServeNeeds  []string `json:"serve_needs,omitempty"`
+	Discovery   bool     `json:"discovery_is_choice_point,omitempty"`
+	Profile     bool     `json:"id_token_without_email,omitempty"`
+	ProfileOpt  bool     `json:"id_token_without_groups_and_preferred_username,omitempty"`
+	CustomAud   bool     `json:"custom_audience_claim,omitempty"`
+	Rotated     bool     `json:"refresh_signed_with_new_key,omitempty"`
+	BigLogin    bool     `json:"login_id_token_padded,omitempty"`
+	ExtraIssuer bool     `json:"bearer_token_of_extra_issuer,omitempty"`
+	OIDC        bool     `json:"oidc"`
 }
 
 func c14Scenarios() []*c14Scenario {
